@@ -146,6 +146,26 @@ class G(Config):
 FAIL_POST_INIT = []  # a driver puts a token here to make the next K2.__post_init__ raise once (fault injection)
 
 
+FAIL_GEN = []  # a driver puts a token here to make the next path generation of GF raise once (fault injection)
+
+
+def _gf_name(context, config):
+    if FAIL_GEN:
+        FAIL_GEN.pop()
+        raise RuntimeError("path generation fails as planned")
+    return "f.txt"
+
+
+class GF(Config):
+    """A generated path whose name is computed by a function"""
+
+    p: Meta[Path] = field(default_factory=PathGenerator(_gf_name))
+    z: Param[Optional[Config]] = None
+
+    def __post_init__(self):
+        CALLS.append(("post_init", id(self)))
+
+
 class LW(LightweightTask):
     k: Param[int]
     c: Param[Optional[Config]] = None
